@@ -5,6 +5,8 @@ use crate::error::{Error, ErrorKind};
 pub struct FuelTracker {
     // The initial fuel level.
     initial: u64,
+    // The initial fuel level as far as it fits into the signed counter.
+    start: isize,
     remaining: isize,
 }
 
@@ -12,9 +14,11 @@ impl FuelTracker {
     /// Creates a new fuel tracker.
     ///
     pub fn new(fuel: u64) -> FuelTracker {
+        let start = isize::try_from(fuel).unwrap_or(isize::MAX);
         FuelTracker {
             initial: fuel,
-            remaining: fuel as isize,
+            start,
+            remaining: start,
         }
     }
 
@@ -32,12 +36,12 @@ impl FuelTracker {
 
     /// Returns the remaining fuel.
     pub fn remaining(&self) -> u64 {
-        self.remaining as _
+        self.initial.saturating_sub(self.consumed())
     }
 
     /// Returns the consumed fuel.
     pub fn consumed(&self) -> u64 {
-        self.initial.saturating_sub(self.remaining())
+        (self.start - self.remaining) as u64
     }
 }
 
